@@ -17,6 +17,7 @@ import (
 	"sort"
 	"strconv"
 	"strings"
+	"sync"
 	"unicode/utf8"
 
 	"github.com/basekick-labs/arc/internal/ingest"
@@ -1013,6 +1014,109 @@ func runBatch(c *vh.Ctx, items []item, prec string, monitor bool, withCols bool)
 	}
 }
 
+// ---------------------------------------------------------------- concurrency stage
+//
+// LineProtocolHandler builds ONE parser (`parser: ingest.NewLineProtocolParser()`, checked by factgen)
+// and every request goroutine calls h.parser.ParseBatchWithPrecision on it. The property is about each
+// request, so the parser must behave as a pure function of its input also when 2..8 requests are
+// parsed at the same time. Here the same kind of shared instance is driven from G goroutines with
+// escape-heavy batches; every result must equal the sequential parse of the same bytes (which the
+// Lean model vouches for through the ordinary `batch` op).
+
+func (g *gen) escapeHeavyBatch(tag byte) []byte {
+	var data []byte
+	mark := func(b []byte) []byte { return append(b, tag) } // make the batches of two workers differ
+	for l := g.r.Range(2, 6); l > 0; l-- {
+		p := &point{meas: mark(g.name(1, 6, 30)), sp1: 1, sp2: 1}
+		used := map[string]bool{"time": true}
+		key := func() []byte {
+			for {
+				k := mark(g.name(1, 6, 30))
+				if kvAware || bytes.IndexByte(k, '=') < 0 {
+					if !used[string(k)] {
+						used[string(k)] = true
+						return k
+					}
+				}
+			}
+		}
+		for t := g.r.Range(1, 4); t > 0; t-- {
+			p.tags = append(p.tags, kv{key(), mark(g.name(1, 6, 30))})
+		}
+		for f := g.r.Range(1, 4); f > 0; f-- {
+			p.fields = append(p.fields, fkv{key(), g.valueOfKind(vh.Pick(g.r, []byte("fisb")))})
+		}
+		if g.r.Chance(60) {
+			p.hasTs, p.ts = true, g.ts()
+		}
+		line, _ := p.render()
+		if len(data) > 0 {
+			data = append(data, '\n')
+		}
+		data = append(data, line...)
+	}
+	return data
+}
+
+func concurrencyStage(c *vh.Ctx, g *gen, rounds, iters int) {
+	shared := ingest.NewLineProtocolParser() // what NewLineProtocolHandler stores in h.parser
+	for round := 0; round < rounds; round++ {
+		G := g.r.Range(2, 8)
+		prec := vh.Pick(g.r, precs)
+		batches := make([][]byte, G)
+		want := make([]string, G)
+		for i := range batches {
+			batches[i] = g.escapeHeavyBatch(byte('A' + i))
+			want[i] = batchStr(shared.ParseBatchWithPrecision(batches[i], prec)) // sequential reference
+			c.Op(fmt.Sprintf("batch %s %d %s", prec, nowUs, hx(batches[i])), want[i])
+		}
+		type diff struct {
+			worker, iter int
+			got         string
+		}
+		var mu sync.Mutex
+		var first *diff
+		var wg sync.WaitGroup
+		start := make(chan struct{})
+		for w := 0; w < G; w++ {
+			wg.Add(1)
+			go func(w int) {
+				defer wg.Done()
+				<-start
+				for it := 0; it < iters; it++ {
+					got := vh.Guard(func() string { return batchStr(shared.ParseBatchWithPrecision(batches[w], prec)) })
+					if got != want[w] {
+						mu.Lock()
+						if first == nil {
+							first = &diff{w, it, got}
+						}
+						mu.Unlock()
+						return
+					}
+				}
+			}(w)
+		}
+		close(start)
+		wg.Wait()
+		c.Tag(fmt.Sprintf("concurrent:goroutines=%d", G))
+		c.Case(fmt.Sprintf("concurrent %d %s %s", G, prec, hx(bytes.Join(batches, []byte{0}))), true)
+		if first != nil {
+			var hs []string
+			for _, b := range batches {
+				hs = append(hs, hex.EncodeToString(b))
+			}
+			got := first.got
+			if len(got) > 300 {
+				got = got[:300] + "…"
+			}
+			c.Fail("concurrent-parse-differs:shared-parser",
+				fmt.Sprintf("one shared LineProtocolParser (as LineProtocolHandler holds it) parsing %d requests at the same time: request %d (iteration %d) was parsed differently from the sequential parse of the same bytes — the parser carries state between/among calls", G, first.worker, first.iter),
+				fmt.Sprintf("shared := ingest.NewLineProtocolParser(); %d goroutines, goroutine i loops shared.ParseBatchWithPrecision(batch[i], %q); batches (hex): %s ; goroutine %d got %s", G, prec, strings.Join(hs, " | "), first.worker, got))
+			return
+		}
+	}
+}
+
 // ---------------------------------------------------------------- corpus of hand-written edge lines
 
 var corpus = []string{
@@ -1234,6 +1338,12 @@ func main() {
 			runBatch(c, its, prec, false, true)
 			produced += n
 		}
+	}
+	// (last) the shared-parser concurrency stage
+	if c.Thorough() {
+		concurrencyStage(c, g, 300, 400)
+	} else {
+		concurrencyStage(c, g, 40, 300)
 	}
 	verifclock.Real()
 	c.Extra["lines"] = produced
